@@ -74,36 +74,75 @@ func runC30(c *an.Ctx) {
 		c.Violate("order|GenesisChainConfig|stake-descending", "peers are ordered by stake, highest first", c.P.Rel(gcc.Pos()), "no sorter call")
 	} else {
 		desc := false
-		// the comparator: the closure, or the named function it forwards to (less(peers[i], peers[j]))
+		descWhy := "primary comparison is not 'InitPos of i greater than InitPos of j => true'"
+		// the comparator: the closure, or the named function it forwards to (less(peers[i], peers[j])). Decided by
+		// evaluating it under the two scenarios "i has the larger stake" / "j has the larger stake": every
+		// comparison of the two InitPos values gets the outcome the scenario dictates, and every reachable return must
+		// then evaluate to true / false. Spelling, branch shape and operand order do not matter.
 		if less, ofI, ofJ := an.ComparatorBody(sortCall); less != nil {
-			for _, b := range less.Blocks {
-				iff, isIf := b.Instrs[len(b.Instrs)-1].(*ssa.If)
-				if !isIf {
-					continue
+			scenario := func(iLarger bool) (map[ssa.Value]an.Abs, int) {
+				as := map[ssa.Value]an.Abs{}
+				n := 0
+				for _, b := range less.Blocks {
+					for _, in := range b.Instrs {
+						bo, isB := in.(*ssa.BinOp)
+						if !isB {
+							continue
+						}
+						fx, fy := fieldOfLoad(bo.X), fieldOfLoad(bo.Y)
+						if fx == nil || fy == nil || fx != fy || fx.Name() != "InitPos" {
+							continue
+						}
+						op := bo.Op
+						switch {
+						case ofI(bo.X) && ofJ(bo.Y):
+						case ofJ(bo.X) && ofI(bo.Y):
+							op = mirrorOp[op]
+						default:
+							continue
+						}
+						// op now reads "InitPos(i) op InitPos(j)"
+						var truth bool
+						switch op {
+						case token.NEQ:
+							truth = true
+						case token.GTR, token.GEQ:
+							truth = iLarger
+						case token.LSS, token.LEQ:
+							truth = !iLarger
+						case token.EQL:
+							truth = false
+						default:
+							continue
+						}
+						n++
+						if truth {
+							as[bo] = an.ATrue
+						} else {
+							as[bo] = an.AFalse
+						}
+					}
 				}
-				bo, isB := iff.Cond.(*ssa.BinOp)
-				if !isB || (bo.Op != token.GTR && bo.Op != token.LSS) {
-					continue
-				}
-				fx, fy := fieldOfLoad(bo.X), fieldOfLoad(bo.Y)
-				if fx == nil || fy == nil || fx != fy || fx.Name() != "InitPos" {
-					continue
-				}
-				// first.InitPos > second.InitPos, or second.InitPos < first.InitPos
-				if !(bo.Op == token.GTR && ofI(bo.X) && ofJ(bo.Y) || bo.Op == token.LSS && ofJ(bo.X) && ofI(bo.Y)) {
-					continue
-				}
-				// the true successor returns true
-				for _, in := range b.Succs[0].Instrs {
-					if r, isR := in.(*ssa.Return); isR && len(r.Results) == 1 {
-						if k, isK := r.Results[0].(*ssa.Const); isK && k.Value != nil && k.Value.String() == "true" {
-							desc = true
+				return as, n
+			}
+			okAll, nCmp := true, 0
+			for _, iLarger := range []bool{true, false} {
+				as, n := scenario(iLarger)
+				nCmp = n
+				r := (&an.Query{Fn: less, Assume: as, NoInline: true}).Run()
+				for _, ret := range an.Returns(less) {
+					for _, st := range r.StatesAt(ret) {
+						got, isB := r.Eval(ret.Results[0], st).IsBool()
+						if !isB || got != iLarger {
+							okAll = false
+							descWhy = fmt.Sprintf("with InitPos(i) %s InitPos(j) the comparator can return %v at %s", map[bool]string{true: ">", false: "<"}[iLarger], !iLarger, c.P.Rel(ret.Pos()))
 						}
 					}
 				}
 			}
+			desc = okAll && nCmp >= 1
 		}
-		c.Check(desc, "order|GenesisChainConfig|stake-descending", "the comparator puts the peer with the larger stake first (less(i,j) is true when peers[i].InitPos > peers[j].InitPos), so indices 0..K-1 are the K highest-staked peers", c.P.Rel(sortCall.Pos()), "primary comparison is not 'InitPos of i greater than InitPos of j => true'")
+		c.Check(desc, "order|GenesisChainConfig|stake-descending", "the comparator puts the peer with the larger stake first (less(i,j) is true when peers[i].InitPos > peers[j].InitPos), so indices 0..K-1 are the K highest-staked peers", c.P.Rel(sortCall.Pos()), descWhy)
 	}
 	// the selected peers are the first K of the sorted list: every index into peers is a loop counter bounded by conf.K
 	// (structure only: all IndexAddr on peers use an index compared (<) against a value derived from conf.K)
@@ -153,7 +192,7 @@ func runC30(c *an.Ctx) {
 			}
 		}
 	}
-	c.Check(okIdx && nIdx >= 4, "order|GenesisChainConfig|takes-first-K", "every access to the sorted peer list uses a loop index bounded by conf.K (the configuration is built from the first K entries only)", c.P.Rel(gcc.Pos()), fmt.Sprintf("%d accesses", nIdx))
+	c.Check(okIdx && nIdx >= 2, "order|GenesisChainConfig|takes-first-K", "every access to the sorted peer list uses a loop index bounded by conf.K (the configuration is built from the first K entries only)", c.P.Rel(gcc.Pos()), fmt.Sprintf("%d accesses", nIdx))
 
 	// (4) no fused multiply-add shape in float arithmetic
 	fma := ""
@@ -202,23 +241,106 @@ func indexedBy(v ssa.Value, idx ssa.Value) bool {
 	return false
 }
 
-// boundedByK: idx is a loop-carried counter whose loop condition compares it
-// (<) with int(conf.K).
+// boundedByK: idx is a loop counter (or counter+1, as in a range loop) that is compared (<, in any spelling) with
+// int(conf.K), or with the length of a local slice that holds at most K elements.
 func boundedByK(idx ssa.Value) bool {
-	ph, ok := idx.(*ssa.Phi)
-	if !ok || ph.Referrers() == nil {
-		return false
+	cands := []ssa.Value{idx}
+	if base, _, ok := linear(idx); ok && base != idx {
+		cands = append(cands, base)
 	}
-	for _, r := range *ph.Referrers() {
-		bo, isB := r.(*ssa.BinOp)
-		if !isB || bo.Op != token.LSS || bo.X != ssa.Value(ph) {
-			continue
-		}
-		y := bo.Y
+	isK := func(y ssa.Value) bool {
 		if cv, isC := y.(*ssa.Convert); isC {
 			y = cv.X
 		}
 		if f := fieldOfLoad(y); f != nil && f.Name() == "K" {
+			return true
+		}
+		// len(s) where s is filled by at most one append per iteration of a loop bounded by K
+		if k, isCall := y.(*ssa.Call); isCall {
+			if bi, isB := k.Call.Value.(*ssa.Builtin); isB && bi.Name() == "len" && len(k.Call.Args) == 1 {
+				return atMostKElems(k.Call.Args[0])
+			}
+		}
+		return false
+	}
+	for _, cand := range cands {
+		if cand.Referrers() == nil {
+			continue
+		}
+		cv := cand
+		for _, r := range *cand.Referrers() {
+			if m, _ := relMatch(anyBinOp(r), token.LSS, func(x ssa.Value) bool { return x == cv }, isK); m {
+				return true
+			}
+		}
+	}
+	return false
+}
+
+func anyBinOp(in ssa.Instruction) ssa.Value {
+	if b, ok := in.(*ssa.BinOp); ok {
+		return b
+	}
+	return nil
+}
+
+// atMostKElems: s is a local slice that starts empty and grows only by one single-element append per iteration of
+// a loop whose counter is bounded by K.
+func atMostKElems(s ssa.Value) bool {
+	ph, ok := s.(*ssa.Phi)
+	if !ok || len(ph.Edges) != 2 {
+		return false
+	}
+	empty, grows := false, false
+	for _, e := range ph.Edges {
+		switch x := e.(type) {
+		case *ssa.MakeSlice:
+			if k, isK := x.Len.(*ssa.Const); isK && k.Value != nil && k.Value.String() == "0" {
+				empty = true
+			}
+		case *ssa.Const:
+			empty = x.Value == nil
+		case *ssa.Slice:
+			// make([]T, 0) with a constant length is a slice of a fresh [0]T
+			if al, isAl := x.X.(*ssa.Alloc); isAl {
+				if pt, isP := al.Type().Underlying().(*types.Pointer); isP {
+					if arr, isArr := pt.Elem().Underlying().(*types.Array); isArr && arr.Len() == 0 {
+						empty = true
+					}
+				}
+			}
+		case *ssa.Call:
+			if bi, isB := x.Call.Value.(*ssa.Builtin); isB && bi.Name() == "append" && len(x.Call.Args) == 2 && x.Call.Args[0] == ssa.Value(ph) && len(variadicElems(x.Call.Args[1])) == 1 {
+				grows = true
+			}
+		}
+	}
+	if !empty || !grows {
+		return false
+	}
+	// the loop this phi belongs to is bounded by K: some other phi of the same block is
+	for _, in := range ph.Block().Instrs {
+		if other, isPhi := in.(*ssa.Phi); isPhi && other != ph && boundedCounter(other) {
+			return true
+		}
+	}
+	return false
+}
+
+// boundedCounter: a counter phi compared (<) with int(conf.K) directly (no recursion into slice lengths).
+func boundedCounter(ph *ssa.Phi) bool {
+	if ph.Referrers() == nil {
+		return false
+	}
+	for _, r := range *ph.Referrers() {
+		m, _ := relMatch(anyBinOp(r), token.LSS, func(x ssa.Value) bool { return x == ssa.Value(ph) }, func(y ssa.Value) bool {
+			if cv, isC := y.(*ssa.Convert); isC {
+				y = cv.X
+			}
+			f := fieldOfLoad(y)
+			return f != nil && f.Name() == "K"
+		})
+		if m {
 			return true
 		}
 	}
